@@ -81,13 +81,13 @@ theorem parseDecimal_frac (ip fp : List Char) (hip : ip.all isDigitCh = true) (h
 /-- **Decimal fractions scale the same way, truncated to whole bytes**: digits `ip`, a dot, digits
 `fp` (not both empty) and any spelling `u` of a unit with multiplier `mult` denote exactly
 `⌊N · mult / 10^d⌋` — `N` the digits read as one number, `d` the number of decimals — whenever
-`N · mult < 2^52`. The double-precision detour (round `N/10^d` to 53 bits, multiply, cast) never
-reaches the neighbouring integer. -/
+`N · mult` fits in 53 bits. The double-precision detour (round `N/10^d` to 53 bits, multiply, cast)
+never reaches the neighbouring integer and keeps exact products exact. -/
 theorem parse_fraction_trunc (ip fp u : List Char) (mult : Nat)
     (hip : ip.all isDigitCh = true) (hfp : fp.all isDigitCh = true) (hne : ¬ (ip = [] ∧ fp = []))
     (hu : ∀ c ∈ u, isNumCh c = false)
     (hl : lookupSuffix (u.map lowerAscii) Consts.suffixTable = some mult)
-    (hfit : digitsVal (ip ++ fp) * mult < 2 ^ 52) :
+    (hfit : digitsVal (ip ++ fp) * mult < 2 ^ 53) :
     parseBytes (ip ++ '.' :: fp ++ u) = .ok (digitsVal (ip ++ fp) * mult / 10 ^ fp.length) := by
   -- split number from unit
   have hall : (ip ++ '.' :: fp).all isNumCh = true := by
@@ -104,9 +104,7 @@ theorem parse_fraction_trunc (ip fp u : List Char) (mult : Nat)
     cases u with
     | nil => simp at hx
     | cons a t => simp at hx; subst hx; exact hu _ (by simp)
-  have hsplit := takeWhile_all isNumCh (ip ++ '.' :: fp) u hall hhead
-  have hassoc : ip ++ '.' :: fp ++ u = (ip ++ '.' :: fp) ++ u := by simp
-  obtain ⟨ht, hd⟩ := hsplit
+  obtain ⟨ht, hd⟩ := takeWhile_all isNumCh (ip ++ '.' :: fp) u hall hhead
   have hp2 : isPow2 mult = true := by
     have hm := lookupSuffix_mem _ _ _ hl
     exact List.all_eq_true.mp table_all_pow2 _ hm
@@ -115,51 +113,68 @@ theorem parse_fraction_trunc (ip fp u : List Char) (mult : Nat)
   generalize hN : digitsVal (ip ++ fp) = N at hfit ⊢
   generalize hdd : fp.length = d
   have hD : 0 < 10 ^ d := Nat.pow_pos (by omega)
+  have hmpos : 0 < mult := by rw [hmult]; exact Nat.two_pow_pos _
+  have hN53 : N < 2 ^ 53 := by
+    have : N * 1 ≤ N * mult := Nat.mul_le_mul_left N hmpos
+    omega
   unfold parseBytes
   simp only [ht, hd, parseDecimal_frac ip fp hip hfp hne, hN, hdd, hl]
-  by_cases hN0 : N = 0
-  · -- zero
-    subst hN0
-    simp [rn53, scaleToU64, hp2, floorScaled_zero, u64Max]
-  · have hNpos : 0 < N := by omega
-    have hmpos : 0 < mult := by rw [hmult]; exact Nat.two_pow_pos _
-    have hNlt : N < 2 ^ 52 := by
-      have : N * 1 ≤ N * mult := Nat.mul_le_mul_left N hmpos
-      omega
-    obtain ⟨s, hs0, he, hq52, hm, hex⟩ := rn53_small_value N (10 ^ d) hNpos hD hNlt
-    unfold scaleToU64
-    simp only [hp2, if_true, he, hk]
-    -- k < s: otherwise the quotient could not reach 2^52
-    have hks : k < s := by
-      apply Classical.byContradiction
-      intro hc
-      have hle : s ≤ k := by omega
-      have h1 : N * 2 ^ s / 10 ^ d ≤ N * 2 ^ s := Nat.div_le_self _ _
-      have h2 : N * 2 ^ s ≤ N * 2 ^ k := Nat.mul_le_mul_left _ (Nat.pow_le_pow_right (by omega) hle)
-      rw [hmult] at hfit
-      omega
-    -- floorScaled m (-s + k) = m / 2^(s-k)
-    have hfs : floorScaled (rn53 N (10 ^ d)).1 (-(s : Int) + (k : Int)) = (rn53 N (10 ^ d)).1 / 2 ^ (s - k) := by
-      unfold floorScaled
-      have hneg : ¬ (-(s : Int) + (k : Int) ≥ 0) := by omega
-      have htn : (-(-(s : Int) + (k : Int))).toNat = s - k := by omega
-      simp only [hneg, if_false, htn]
-    rw [hfs]
-    -- apply the arithmetic core with A = N * mult, P = 2^(s-k)
-    have hsplit2 : N * 2 ^ s = N * mult * 2 ^ (s - k) := by
-      rw [hmult, Nat.mul_assoc, ← Nat.pow_add]; congr 2; omega
-    rw [hsplit2] at hq52 hm hex
-    have hPgt : 10 ^ d < 2 ^ (s - k) := by
-      have h1 : N * mult * 2 ^ (s - k) / 10 ^ d * 10 ^ d ≤ N * mult * 2 ^ (s - k) := Nat.div_mul_le_self _ _
-      have h2 : 2 ^ 52 * 10 ^ d ≤ N * mult * 2 ^ (s - k) := Nat.le_trans (Nat.mul_le_mul_right _ hq52) h1
-      have h3 : N * mult * 2 ^ (s - k) < 2 ^ 52 * 2 ^ (s - k) := Nat.mul_lt_mul_of_pos_right hfit (Nat.two_pow_pos _)
-      have h4 : 2 ^ 52 * 10 ^ d < 2 ^ 52 * 2 ^ (s - k) := Nat.lt_of_le_of_lt h2 h3
-      exact Nat.lt_of_mul_lt_mul_left h4
-    rw [frac_floor (N * mult) (10 ^ d) (2 ^ (s - k)) _ hD hPgt hm hex]
+  unfold scaleToU64
+  simp only [hp2, if_true, hk]
+  have hres : N * mult / 10 ^ d ≤ N * mult := Nat.div_le_self _ _
+  cases d with
+  | zero =>
+    -- no decimals: an integer below 2^53 is represented exactly
+    simp only [Nat.pow_zero, Nat.div_one]
+    rw [rn53_int N hN53 k, ← hmult]
     congr 1
-    have : N * mult / 10 ^ d ≤ N * mult := Nat.div_le_self _ _
-    unfold u64Max
-    omega
+    unfold u64Max; omega
+  | succ d' =>
+    by_cases hN0 : N = 0
+    · subst hN0
+      simp [rn53, floorScaled_zero, u64Max]
+    · have hNpos : 0 < N := by omega
+      have h10 : 10 ≤ 10 ^ (d' + 1) := by
+        rw [Nat.pow_succ]
+        have : 1 ≤ 10 ^ d' := Nat.pow_pos (by omega)
+        omega
+      have hval : N < 2 ^ 50 * 10 ^ (d' + 1) := by
+        have : 2 ^ 50 * 10 ≤ 2 ^ 50 * 10 ^ (d' + 1) := Nat.mul_le_mul_left _ h10
+        omega
+      obtain ⟨s, hs0, he, hq52, hm, hex, hup⟩ := rn53_small_value N (10 ^ (d' + 1)) hNpos hD hval
+      rw [he]
+      -- k < s: otherwise the quotient could not reach 2^52
+      have hks : k < s := by
+        apply Classical.byContradiction
+        intro hc
+        have hle : s ≤ k := by omega
+        have h2 : N * 2 ^ s ≤ N * 2 ^ k := Nat.mul_le_mul_left _ (Nat.pow_le_pow_right (by omega) hle)
+        rw [hmult] at hfit
+        have h3 : N * 2 ^ s / 10 ^ (d' + 1) ≤ N * 2 ^ s / 10 := Nat.div_le_div_left h10 (by omega)
+        have h4 : N * 2 ^ s / 10 ≤ N * 2 ^ k / 10 := Nat.div_le_div_right h2
+        omega
+      have hfs : floorScaled (rn53 N (10 ^ (d' + 1))).1 (-(s : Int) + (k : Int)) = (rn53 N (10 ^ (d' + 1))).1 / 2 ^ (s - k) := by
+        unfold floorScaled
+        have hneg : ¬ (-(s : Int) + (k : Int) ≥ 0) := by omega
+        have htn : (-(-(s : Int) + (k : Int))).toNat = s - k := by omega
+        simp only [hneg, if_false, htn]
+      rw [hfs]
+      have hsplit2 : N * 2 ^ s = N * mult * 2 ^ (s - k) := by
+        rw [hmult, Nat.mul_assoc, ← Nat.pow_add]; congr 2; omega
+      rw [hsplit2] at hq52 hm hex hup
+      have hPgt : 10 ^ (d' + 1) < 2 * 2 ^ (s - k) := by
+        have h1 : N * mult * 2 ^ (s - k) / 10 ^ (d' + 1) * 10 ^ (d' + 1) ≤ N * mult * 2 ^ (s - k) := Nat.div_mul_le_self _ _
+        have h2 : 2 ^ 52 * 10 ^ (d' + 1) ≤ N * mult * 2 ^ (s - k) := Nat.le_trans (Nat.mul_le_mul_right _ hq52) h1
+        have h3 : N * mult * 2 ^ (s - k) < 2 ^ 53 * 2 ^ (s - k) := Nat.mul_lt_mul_of_pos_right hfit (Nat.two_pow_pos _)
+        have h4 : 2 ^ 52 * 10 ^ (d' + 1) < 2 ^ 52 * (2 * 2 ^ (s - k)) := by
+          have : 2 ^ 53 * 2 ^ (s - k) = 2 ^ 52 * (2 * 2 ^ (s - k)) := by
+            rw [← Nat.mul_assoc]
+          omega
+        exact Nat.lt_of_mul_lt_mul_left h4
+      rw [frac_floor (N * mult) (10 ^ (d' + 1)) (2 ^ (s - k)) _ hD hPgt hm hex hup]
+      congr 1
+      unfold u64Max
+      omega
 
 /-- unknown suffix ⇒ rejected -/
 theorem parse_rejects_unknown_suffix (text : List Char)
